@@ -18,8 +18,8 @@ from . import c01
 ID = "C09"
 LEVEL = "exploration"
 RULE = (
-    "Hypothesis-generated pipelines: producer in {data function, dds.keep call site}, load placed in {root, helper, helper "
-    "of helper, kept function, helper under a kept function}, order in {producer in an earlier evaluation, earlier in the same "
+    "Hypothesis-generated pipelines: producer in {data function, dds.keep call site, one function kept under two paths of which readers load both}, load placed in {root, helper, helper "
+    "of helper, kept function, helper under a kept function, argument list of a plain call, loaded value handed to a kept function as run-time argument}, order in {producer in an earlier evaluation, earlier in the same "
     "evaluation, later in the same evaluation, never produced}, padded with unrelated statements; histories: evaluate, edit "
     "the producer's tracked variable or body, move the producer before / after the load or out of the evaluated function "
     "(in-process or across a restart), optionally re-evaluate the producer, evaluate again, no-op re-evaluation; two templates: "
@@ -34,7 +34,7 @@ ASSUMPTIONS = [
     "NoOp store excluded (documented: load does not work with it)",
 ]
 
-PLACEMENTS = ["root", "helper", "helper2", "kept", "kept_helper", "inline_arg", "kept_inline_arg"]
+PLACEMENTS = ["root", "helper", "helper2", "kept", "kept_helper", "inline_arg", "kept_inline_arg", "kept_loaded_arg", "kept_loaded_arg_inline"]
 ORDERS = ["earlier_eval", "same_before", "same_before", "same_after", "same_after_populated", "never"]
 STORES = [("memory", None), ("local", None), ("local-lru", 2)]
 
@@ -54,20 +54,23 @@ def build(placement, order, producer, noise, multi, kwarg=False):
         call_prod = ["call", p_entry, "bare", []]
     else:
         pbody = add("prod_body", [["var", 0]])
-        p_entry = add("mk", [["keep", "/src/v", pbody, "bare", []]])
+        # keepcall2: the same function is kept under two paths in one evaluation (the loaded path is the second one)
+        p_entry = add("mk", ([["keep", "/src/u", pbody, "bare", []]] if producer == "keepcall2" else []) + [["keep", "/src/v", pbody, "bare", []]])
         call_prod = ["call", p_entry, "bare", []]
     unrelated = add("other", [["var", 1], ["ext", 0]], data="/other")
     ld = ["load", "/src/v"]
+    # with two paths serving the same blob, readers that have a body of their own load both
+    ld2 = [["load", "/src/u"]] if producer == "keepcall2" else []
     # reader chain
     if placement == "root":
         read_stmt = ld
         reader_kept = None
     elif placement == "helper":
-        h = add("h", [["ext", 1], ld])
+        h = add("h", [["ext", 1], ld] + ld2)
         read_stmt = ["call", h, "bare", []]
         reader_kept = None
     elif placement == "helper2":
-        h = add("h", [ld])
+        h = add("h", [ld] + ld2)
         h2 = add("h2", [["call", h, "bare", []], ["ext", 2]])
         read_stmt = ["call", h2, "bare", []]
         reader_kept = None
@@ -80,12 +83,22 @@ def build(placement, order, producer, noise, multi, kwarg=False):
         r = add("rd", [["var", 1], ["call", fmt, "bare", [["iload", "/src/v", "kw" if kwarg else "pos"]]]], data="/rd")
         read_stmt = ["call", r, "bare", []]
         reader_kept = "rd"
+    elif placement in ("kept_loaded_arg", "kept_loaded_arg_inline"):
+        # the loaded value is handed to a kept function as a run-time argument (the kept function itself does not load)
+        r = add("rd", [["var", 1]], params=[["x", M.NO]])
+        if placement == "kept_loaded_arg":
+            hb = [ld, ["keep", "/rd", r, "bare", [["loc", 0, "kw" if kwarg else "pos"]]]]
+        else:
+            hb = [["keep", "/rd", r, "bare", [["iload", "/src/v", "kw" if kwarg else "pos"]]]]
+        h = add("h", hb)
+        read_stmt = ["call", h, "bare", []]
+        reader_kept = "rd"
     elif placement == "kept":
-        r = add("rd", [["var", 1], ld], data="/rd")
+        r = add("rd", [["var", 1], ld] + ld2, data="/rd")
         read_stmt = ["call", r, "bare", []]
         reader_kept = "rd"
     else:
-        h = add("h", [ld])
+        h = add("h", [ld] + ld2)
         r = add("rd", [["call", h, "bare", []]], data="/rd")
         read_stmt = ["call", r, "bare", []]
         reader_kept = "rd"
@@ -115,7 +128,7 @@ def case_strategy():
     def gen(draw):
         placement = draw(st.sampled_from(PLACEMENTS))
         order = draw(st.sampled_from(ORDERS))
-        producer = draw(st.sampled_from(["data", "keepcall"]))
+        producer = draw(st.sampled_from(["data", "keepcall", "keepcall2"]))
         noise = draw(st.integers(0, 3))
         multi = draw(st.booleans())
         kind, cache = draw(st.sampled_from(STORES))
